@@ -15,19 +15,27 @@ Qed.
 Lemma is_nilb_spec {A} (l : list A) : is_nilb l = true <-> l = [].
 Proof. destruct l; cbn; split; intros H; try reflexivity; discriminate H. Qed.
 
-Theorem drain_okb_sound t : drain_okb t = true -> drain_safe t /\ drain_live t.
+Lemma excuse_mem c l : existsb (N.eqb c) l = true <-> In c l.
 Proof.
-  intros H. split.
+  rewrite existsb_exists. split.
+  - intros (x & Hx & E). apply N.eqb_eq in E. subst. exact Hx.
+  - intros H. exists c. split; [exact H|apply N.eqb_refl].
+Qed.
+
+Theorem drain_okb_sound t : drain_okb t = true -> drain_safe t /\ drain_live t /\ errors_justified t.
+Proof.
+  intros H. split; [|split].
   - intros a b E. subst t. apply drain_run_at in H. cbn [drain_check] in H.
     apply is_nilb_spec in H. exact H.
   - intros a b E (Hg & Ho & Hw). subst t. apply drain_run_at in H. cbn [drain_check] in H.
     fold (app_after a) in H. rewrite Hg, Ho, Hw in H. discriminate H.
+  - intros a b c E. subst t. apply drain_run_at in H. cbn [drain_check] in H. apply excuse_mem. exact H.
 Qed.
 
 Lemma drain_run_complete t : forall pre,
-  drain_safe (pre ++ t) -> drain_live (pre ++ t) -> drain_run (app_after pre) t = true.
+  drain_safe (pre ++ t) -> drain_live (pre ++ t) -> errors_justified (pre ++ t) -> drain_run (app_after pre) t = true.
 Proof.
-  induction t as [|e t IH]; intros pre Hs Hl; cbn [drain_run]; [reflexivity|].
+  induction t as [|e t IH]; intros pre Hs Hl He; cbn [drain_run]; [reflexivity|].
   assert (Hc : drain_check (app_after pre) e = true).
   { destruct e as [o|o]; [reflexivity|]. destruct o; try reflexivity; cbn [drain_check].
     - apply is_nilb_spec. apply (Hs pre t). reflexivity.
@@ -35,15 +43,16 @@ Proof.
       destruct (a_goaway (app_after pre)); [|reflexivity].
       destruct (a_objs (app_after pre)); [|reflexivity].
       destruct (a_wait (app_after pre)); [|reflexivity].
-      exfalso. apply Hl. auto. }
+      exfalso. apply Hl. auto.
+    - apply excuse_mem. apply (He pre t). reflexivity. }
   rewrite Hc. cbn [andb].
   replace (app_step (app_after pre) e) with (app_after (pre ++ [e])).
   - apply IH; rewrite <- app_assoc; assumption.
   - unfold app_after. rewrite fold_left_app. reflexivity.
 Qed.
 
-Theorem drain_okb_complete t : drain_safe t -> drain_live t -> drain_okb t = true.
-Proof. intros Hs Hl. exact (drain_run_complete t [] Hs Hl). Qed.
+Theorem drain_okb_complete t : drain_safe t -> drain_live t -> errors_justified t -> drain_okb t = true.
+Proof. intros Hs Hl He. exact (drain_run_complete t [] Hs Hl He). Qed.
 
 Lemma drain_run_app a : forall st b,
   drain_run st (a ++ b) = drain_run st a && drain_run (fold_left app_step a st) b.
@@ -197,12 +206,15 @@ Record w_inv (w : world) (st : astate) (R : list N) : Prop := {
   wi_live : forall id, In id (hids (w_handles w)) -> In id (s_ongoing (w_srv w));
   wi_cover : forall id, In id (s_ongoing (w_srv w)) -> In id (hids (w_handles w)) \/ In id (s_chan (w_srv w));
   wi_end : forall i o e, In (i, (o, e)) (w_handles w) -> e = true;
-  wi_alive : s_dead (w_srv w) = false
+  wi_alive : s_dead (w_srv w) = false;
+  wi_err : forall c, s_err (w_srv w) = Some c -> In c (a_excuse st);
+  wi_chain_err : forall r e, process_goaways (s_recv (w_srv w)) (s_ctl (w_srv w)) = (r, Some e) -> In e (a_excuse st);
+  wi_chain_last : forall r, process_goaways (s_recv (w_srv w)) (s_ctl (w_srv w)) = (r, None) -> r = a_lastgo st
 }.
 
 Lemma app_rejected st rids :
   fold_left app_step (map DO (map rej_ev rids)) st =
-  {| a_objs := a_objs st; a_goaway := a_goaway st; a_wait := fold_left (fun w id => remove1 id w) rids (a_wait st) |}.
+  st_objs st (a_objs st) (fold_left (fun w id => remove1 id w) rids (a_wait st)) (a_excuse st).
 Proof.
   revert st. induction rids as [|id rids IH]; intros st; cbn [map fold_left].
   - destruct st; reflexivity.
@@ -268,13 +280,16 @@ Lemma accept_drain w st R :
        (length (s_inq (snd (accept (w_srv w)))) <= length (s_inq (w_srv w)))%nat)
   end.
 Proof.
-  intros [Ho Hw Hg Hnd Hch Hlive Hcov Hend Halive].
+  intros [Ho Hw Hg Hnd Hch Hlive Hcov Hend Halive Herr Hcerr Hclast].
   set (s := w_srv w) in *. set (H := w_handles w) in *.
   unfold accept.
   destruct (s_err s) as [e|] eqn:Eerr.
-  { cbn [fst snd map drain_run drain_check shown_ids s_dead]. split; [reflexivity|]. left. reflexivity. }
+  { cbn [fst snd map drain_run drain_check shown_ids s_dead].
+    rewrite (proj2 (excuse_mem e _) (Herr e eq_refl)). split; [reflexivity|]. left. reflexivity. }
   destruct (process_goaways (s_recv s) (s_ctl s)) as [recv' [e|]] eqn:Epg.
-  { cbn [fst snd map drain_run drain_check shown_ids s_dead]. split; [reflexivity|]. left. reflexivity. }
+  { cbn [fst snd map drain_run drain_check shown_ids s_dead].
+    rewrite (proj2 (excuse_mem e _) (Hcerr _ e eq_refl)). split; [reflexivity|]. left. reflexivity. }
+  assert (Hlastgo : recv' = a_lastgo st) by (apply Hclast; reflexivity).
   pose proof (accept_loop_shape (s_inq s) (s_sent s) recv' (s_last s) (drain (s_ongoing s) (s_chan s))) as Hs.
   destruct (accept_loop (s_sent s) recv' (s_last s) (drain (s_ongoing s) (s_chan s)) (s_inq s))
     as [[[[rej a] q'] last'] ong'].
@@ -292,9 +307,9 @@ Proof.
     cbn [fst snd]. rewrite shown_ids_app, shown_ids_rej. cbn [app shown_ids].
     rewrite !map_app, drain_run_app, check_rejected, fold_left_app, app_rejected.
     cbn [map drain_run drain_check fold_left app_step andb]. split; [reflexivity|].
-    cbn [a_objs a_goaway a_wait]. rewrite <- Hw, Hq, remove_heads, remove1_head.
+    cbn [st_objs a_objs a_goaway a_wait a_lastgo a_excuse]. rewrite <- Hw, Hq, remove_heads, remove1_head.
     split.
-    + split; cbn [w_srv w_handles s_inq s_recv s_ctl s_chan s_ongoing s_dead a_objs a_goaway a_wait].
+    + split; cbn [w_srv w_handles s_inq s_recv s_ctl s_chan s_ongoing s_dead s_err st_objs a_objs a_goaway a_wait a_lastgo a_excuse process_goaways].
       * unfold hobjs. rewrite map_app. cbn [map fst snd]. fold (hobjs H). rewrite Ho. reflexivity.
       * reflexivity.
       * intros G. left. apply Hrecv. exact G.
@@ -313,6 +328,9 @@ Proof.
       * intros i o e Hi. apply in_app_iff in Hi. destruct Hi as [Hi|Hi]; [eapply Hend; exact Hi|].
         destruct Hi as [Hi|[]]. inversion Hi. reflexivity.
       * reflexivity.
+      * intros c0 Hc0. discriminate Hc0.
+      * intros r0 e0 Hc0. discriminate Hc0.
+      * intros r0 Hc0. inversion Hc0; subst r0. exact Hlastgo.
     + cbn [s_inq]. rewrite ?Hq, !app_length. cbn [length]. lia.
   - (* no more requests *)
     destruct Ha as ((dropped & Hq & Hq') & Hong & Hnil). subst rej ong' q'.
@@ -327,7 +345,7 @@ Proof.
     { rewrite !shown_ids_app, shown_ids_rej. destruct Hwr as [->|(g & ->)]; reflexivity. }
     rewrite Hshown.
     assert (Hst : fold_left app_step (map DO (map rej_ev rids ++ wr ++ [ENone])) st =
-                  {| a_objs := a_objs st; a_goaway := a_goaway st; a_wait := dropped |}).
+                  st_objs st (a_objs st) dropped (a_excuse st)).
     { rewrite !map_app, !fold_left_app, app_rejected. rewrite <- Hw, Hq, remove_heads.
       destruct Hwr as [->|(g & ->)]; reflexivity. }
     split.
@@ -335,7 +353,7 @@ Proof.
       assert (Eo : a_objs st = []) by (rewrite <- Ho; apply hobjs_nil; exact HH).
       destruct Hwr as [->|(g & ->)]; cbn [map drain_run drain_check fold_left app_step a_objs andb]; rewrite Eo; reflexivity.
     + right. rewrite Hst. split.
-      * split; cbn [w_srv w_handles s_inq s_recv s_ctl s_chan s_ongoing s_dead a_objs a_goaway a_wait].
+      * split; cbn [w_srv w_handles s_inq s_recv s_ctl s_chan s_ongoing s_dead s_err st_objs a_objs a_goaway a_wait a_lastgo a_excuse process_goaways].
         -- exact Ho.
         -- reflexivity.
         -- intros G. left. apply Hrecv. exact G.
@@ -345,17 +363,20 @@ Proof.
         -- intros x Hx. rewrite Hnil in Hx. destruct Hx.
         -- exact Hend.
         -- reflexivity.
+        -- intros c0 Hc0. discriminate Hc0.
+        -- intros r0 e0 Hc0. discriminate Hc0.
+        -- intros r0 Hc0. inversion Hc0; subst r0. exact Hlastgo.
       * rewrite Hq, app_length. lia.
   - (* pending *)
     destruct Ha as (Hq & Hq' & Hong & Hc). subst rej ong' q'.
     cbn [fst snd]. rewrite shown_ids_app, shown_ids_rej. cbn [app shown_ids].
     assert (Hst : fold_left app_step (map DO (map rej_ev rids ++ [EPending])) st =
-                  {| a_objs := a_objs st; a_goaway := a_goaway st; a_wait := [] |}).
+                  st_objs st (a_objs st) [] (a_excuse st)).
     { rewrite !map_app, !fold_left_app, app_rejected. rewrite <- Hw, Hq.
       replace rids with (rids ++ []) at 2 by apply app_nil_r. rewrite remove_heads. reflexivity. }
     split.
     + rewrite !map_app, drain_run_app, check_rejected, app_rejected.
-      cbn [map drain_run drain_check a_objs a_goaway a_wait].
+      cbn [map drain_run drain_check st_objs a_objs a_goaway a_wait].
       rewrite <- Hw, Hq. replace rids with (rids ++ []) at 2 by apply app_nil_r. rewrite remove_heads.
       cbn [is_nilb]. rewrite andb_true_r.
       destruct (a_goaway st) eqn:G; [|reflexivity].
@@ -366,7 +387,7 @@ Proof.
       { apply nil_of_no_elem. intros y Hy. apply Hdrain_cov in Hy. rewrite HH in Hy. destruct Hy. }
       destruct Hc as [Hc|Hc]; contradiction.
     + right. rewrite Hst. split.
-      * split; cbn [w_srv w_handles s_inq s_recv s_ctl s_chan s_ongoing s_dead a_objs a_goaway a_wait].
+      * split; cbn [w_srv w_handles s_inq s_recv s_ctl s_chan s_ongoing s_dead s_err st_objs a_objs a_goaway a_wait a_lastgo a_excuse process_goaways].
         -- exact Ho.
         -- reflexivity.
         -- intros G. left. apply Hrecv. exact G.
@@ -376,6 +397,9 @@ Proof.
         -- intros x Hx. left. apply Hdrain_cov. exact Hx.
         -- exact Hend.
         -- reflexivity.
+        -- intros c0 Hc0. discriminate Hc0.
+        -- intros r0 e0 Hc0. discriminate Hc0.
+        -- intros r0 Hc0. inversion Hc0; subst r0. exact Hlastgo.
       * cbn [s_inq length]. lia.
 Qed.
 
@@ -432,7 +456,7 @@ Lemma app_step_handle st o id :
   app_step st (DI o) =
     match lookup id (a_objs st) with
     | Some ob => match obj_update ob o with
-                 | Some o' => {| a_objs := update id o' (a_objs st); a_goaway := a_goaway st; a_wait := a_wait st |}
+                 | Some o' => st_objs st (update id o' (a_objs st)) (a_wait st) (fail_excuse o ++ a_excuse st)
                  | None => st
                  end
     | None => st
@@ -444,14 +468,18 @@ Qed.
 Lemma end_effect_true o obj obj' :
   is_handle_op o -> obj_update obj o = Some obj' ->
   exists he' err, end_effect true o (gone_of obj') = ((if gone_of obj' then 1 else 0)%nat, he', err) /\
-                  (gone_of obj' = false -> he' = true).
+                  (gone_of obj' = false -> he' = true) /\
+                  (forall e, err = Some e -> In e (fail_excuse o)).
 Proof.
   destruct fact_flags as (_ & Em & _).
-  intros Hh Hu. unfold end_effect. rewrite Em.
+  assert (Eq : headers_qpack_code = rfc_QPACK_DECOMPRESSION_FAILED) by reflexivity.
+  assert (Eu : headers_unexpected_code = rfc_H3_FRAME_UNEXPECTED) by reflexivity.
+  intros Hh Hu. unfold end_effect. rewrite Em, Eq, Eu.
   destruct o; cbn [is_handle_op] in Hh; try contradiction;
     destruct obj as [| |sd rv]; repeat (match goal with b : bool |- _ => destruct b end); cbn [obj_update] in Hu;
     try discriminate Hu; inversion Hu; subst; cbn [gone_of andb];
-    try (destruct k); eexists; eexists; (split; [reflexivity|]); intros; try reflexivity; try discriminate.
+    try (destruct k); eexists; eexists; (split; [reflexivity|]); (split; [intros; try reflexivity; try discriminate|]);
+    intros e0 He0; try discriminate He0; inversion He0; subst; left; reflexivity.
 Qed.
 
 Lemma send_one s id : send_n 1 s id = with_chan s (s_chan s ++ [id]).
@@ -473,34 +501,51 @@ Lemma maybe_err_fields s err :
   s_chan (maybe_err s err) = s_chan s /\ s_ongoing (maybe_err s err) = s_ongoing s /\ s_dead (maybe_err s err) = s_dead s.
 Proof. destruct err; cbn; repeat split. Qed.
 
+Lemma send_n_err k id : forall s, s_err (send_n k s id) = s_err s.
+Proof.
+  induction k as [|k IH]; intros s; cbn [send_n]; [reflexivity|]. rewrite IH. unfold end_dropped.
+  destruct end_drop_sends; reflexivity.
+Qed.
+Lemma maybe_err_err s err c :
+  s_err (maybe_err s err) = Some c -> s_err s = Some c \/ err = Some c.
+Proof. destruct err as [e|]; cbn [maybe_err with_err s_err]; [|auto]. destruct (s_err s); auto. Qed.
+
 Lemma hstep_drain w st R o id :
   is_handle_op o -> op_target o = Some id -> w_inv w st R ->
   drain_run st (fst (hstep w o id)) = true /\
   w_inv (snd (hstep w o id)) (fold_left app_step (fst (hstep w o id)) st) R.
 Proof.
-  intros Hh Ht Hinv. pose proof Hinv as [Ho Hw Hg Hnd Hch Hlive Hcov Hend Halive].
+  intros Hh Ht Hinv. pose proof Hinv as [Ho Hw Hg Hnd Hch Hlive Hcov Hend Halive Herr Hcerr Hclast].
   unfold hstep.
   destruct (lookup id (w_handles w)) as [[obj he]|] eqn:El; [|cbn; split; [reflexivity|exact Hinv]].
   destruct (obj_update obj o) as [obj'|] eqn:Eu; [|cbn; split; [reflexivity|exact Hinv]].
   assert (Ehe : he = true) by (eapply Hend; apply lookup_In_pair; exact El). subst he.
-  destruct (end_effect_true o obj obj' Hh Eu) as (he' & err & Eee & Hhe'). rewrite Eee.
+  destruct (end_effect_true o obj obj' Hh Eu) as (he' & err & Eee & Hhe' & Herrc). rewrite Eee.
   cbn [fst snd fold_left drain_run]. rewrite app_step_handle with (id := id) by assumption.
   rewrite <- Ho, lookup_hobjs, El, Eu.
   assert (Hdc : drain_check st (DI o) = true) by reflexivity. rewrite Hdc. cbn [andb]. split; [reflexivity|].
   fold (maybe_err (send_n (if gone_of obj' then 1%nat else 0%nat) (w_srv w) id) err).
   destruct (maybe_err_fields (send_n (if gone_of obj' then 1%nat else 0%nat) (w_srv w) id) err)
     as (F1 & F2 & F3 & F4 & F5 & F6).
+  assert (Herr' : forall c, s_err (maybe_err (send_n (if gone_of obj' then 1%nat else 0%nat) (w_srv w) id) err) = Some c ->
+                  In c (fail_excuse o ++ a_excuse st)).
+  { intros c Hc. apply maybe_err_err in Hc. apply in_app_iff. destruct Hc as [Hc|Hc].
+    - right. apply Herr. rewrite send_n_err in Hc. exact Hc.
+    - left. apply Herrc. exact Hc. }
+  assert (Hcerr' : forall r e, process_goaways (s_recv (w_srv w)) (s_ctl (w_srv w)) = (r, Some e) ->
+                   In e (fail_excuse o ++ a_excuse st)).
+  { intros r e Hc. apply in_app_iff. right. eapply Hcerr. exact Hc. }
   destruct obj' as [ob|]; cbn [gone_of] in *.
   - (* the application still holds something *)
     cbn [send_n] in *. specialize (Hhe' eq_refl). subst he'.
-    split; cbn [w_srv w_handles a_objs a_goaway a_wait]; rewrite ?F1, ?F2, ?F3, ?F4, ?F5, ?F6;
+    split; cbn [w_srv w_handles st_objs a_objs a_goaway a_wait a_lastgo a_excuse]; rewrite ?F1, ?F2, ?F3, ?F4, ?F5, ?F6;
       unfold hids in *; rewrite ?update_some_ids; try assumption.
     + rewrite update_hobjs. reflexivity.
     + apply update_has_end; [exact Hend|]. intros o0 e0 E. inversion E. reflexivity.
   - (* the last object is gone: the id goes into the channel *)
     rewrite send_one in *. cbn [with_chan s_inq s_recv s_ctl s_chan s_ongoing s_dead] in *.
     destruct (update_none_split id (w_handles w) _ El) as (h1 & h2 & E1 & E2 & Hn1).
-    split; cbn [w_srv w_handles a_objs a_goaway a_wait]; rewrite ?F1, ?F2, ?F3, ?F4, ?F5, ?F6;
+    split; cbn [w_srv w_handles st_objs a_objs a_goaway a_wait a_lastgo a_excuse]; rewrite ?F1, ?F2, ?F3, ?F4, ?F5, ?F6;
       unfold hids in *; rewrite ?E2; rewrite ?E1 in *; try assumption.
     + rewrite update_hobjs. reflexivity.
     + rewrite <- app_assoc in Hnd |- *. cbn [app] in Hnd. eapply NoDup_remove_1. exact Hnd.
@@ -526,13 +571,27 @@ Fixpoint arrivals (h : list dop) : list N :=
   | _ :: r => arrivals r
   end.
 
+Lemma process_goaways_snoc ctl : forall recv pid,
+  process_goaways recv (ctl ++ [pid]) =
+    match process_goaways recv ctl with
+    | (r, Some e) => (r, Some e)
+    | (r, None) => if (match r with Some l => l <? pid | None => false end)
+                   then (r, Some rfc_H3_ID_ERROR) else (Some pid, None)
+    end.
+Proof.
+  induction ctl as [|id ctl IH]; intros recv pid; cbn [app process_goaways].
+  - rewrite fact_order_test. destruct (match recv with Some l => l <? pid | None => false end); reflexivity.
+  - rewrite fact_order_test. destruct (match recv with Some l => l <? id | None => false end); [reflexivity|].
+    apply IH.
+Qed.
+
 Lemma dstep_drain w st o h :
   w_inv w st (arrivals (o :: h)) ->
   drain_run st (fst (dstep w o)) = true /\
   (s_dead (w_srv (snd (dstep w o))) = true \/
    w_inv (snd (dstep w o)) (fold_left app_step (fst (dstep w o)) st) (arrivals h)).
 Proof.
-  intros Hinv. pose proof Hinv as [Ho Hw Hg Hnd Hch Hlive Hcov Hend Halive].
+  intros Hinv. pose proof Hinv as [Ho Hw Hg Hnd Hch Hlive Hcov Hend Halive Herr Hcerr Hclast].
   destruct o as [id| |pid|id|id|id k|id|id|id|id|id sd];
     try (cbn [arrivals] in Hinv;
          match goal with |- context [dstep w ?o] =>
@@ -542,7 +601,7 @@ Proof.
   - (* DArrive *)
     unfold dstep. rewrite Halive. cbn [fst snd drain_run drain_check fold_left app_step andb arrivals] in *.
     split; [reflexivity|]. right.
-    split; cbn [w_srv w_handles with_inq s_inq s_recv s_ctl s_chan s_ongoing s_dead a_objs a_goaway a_wait]; try assumption.
+    split; cbn [w_srv w_handles with_inq s_inq s_recv s_ctl s_chan s_ongoing s_dead s_err st_objs a_objs a_goaway a_wait a_lastgo a_excuse]; try assumption.
     + rewrite Hw. reflexivity.
     + rewrite <- app_assoc. cbn [app]. exact Hnd.
     + intros x Hx. rewrite <- app_assoc. cbn [app]. apply Hch. exact Hx.
@@ -554,8 +613,18 @@ Proof.
   - (* DPeerGoaway *)
     unfold dstep. rewrite Halive. cbn [fst snd drain_run drain_check fold_left app_step andb arrivals] in *.
     split; [reflexivity|]. right.
-    split; cbn [w_srv w_handles with_ctl s_inq s_recv s_ctl s_chan s_ongoing s_dead a_objs a_goaway a_wait]; try assumption.
-    intros _. right. destruct (s_ctl (w_srv w)); discriminate.
+    split; cbn [w_srv w_handles with_ctl s_inq s_recv s_ctl s_chan s_ongoing s_dead s_err a_objs a_goaway a_wait a_lastgo a_excuse]; try assumption.
+    + intros _. right. destruct (s_ctl (w_srv w)); discriminate.
+    + intros c Hc. apply in_app_iff. right. apply Herr. exact Hc.
+    + intros r e Hc. rewrite process_goaways_snoc in Hc. apply in_app_iff.
+      destruct (process_goaways (s_recv (w_srv w)) (s_ctl (w_srv w))) as [r0 [e0|]] eqn:Epg.
+      * inversion Hc; subst. right. eapply Hcerr. reflexivity.
+      * rewrite <- (Hclast r0 eq_refl).
+        destruct r0 as [l|]; [|discriminate Hc].
+        destruct (l <? pid); inversion Hc; subst. left. left. reflexivity.
+    + intros r Hc. rewrite process_goaways_snoc in Hc.
+      destruct (process_goaways (s_recv (w_srv w)) (s_ctl (w_srv w))) as [r0 [e0|]] eqn:Epg; [discriminate Hc|].
+      destruct (match r0 with Some l => l <? pid | None => false end); inversion Hc. reflexivity.
 Qed.
 
 Lemma dstep_dead w o : s_dead (w_srv w) = true -> dstep w o = ([], w).
@@ -584,13 +653,15 @@ Qed.
 Lemma w_inv0 R : NoDup R -> w_inv world0 astate0 R.
 Proof.
   intros H. split; cbn; try reflexivity; try discriminate; try (intros; contradiction); try exact H.
+  all: intros r Hc; inversion Hc; reflexivity.
 Qed.
 
 (* the monitor accepts every trace of the model *)
 Theorem model_drains h : NoDup (arrivals h) -> drain_okb (dtrace h) = true.
 Proof. intros H. unfold drain_okb, dtrace. apply drun_drain. apply w_inv0. exact H. Qed.
 
-Theorem model_drain_safe_live h : NoDup (arrivals h) -> drain_safe (dtrace h) /\ drain_live (dtrace h).
+Theorem model_drain_safe_live h :
+  NoDup (arrivals h) -> drain_safe (dtrace h) /\ drain_live (dtrace h) /\ errors_justified (dtrace h).
 Proof. intros H. apply drain_okb_sound, model_drains, H. Qed.
 
 (* ---------- the positive form of liveness: a drained connection answers None when polled ---------- *)
@@ -761,7 +832,7 @@ Proof.
   - exists [], (EErr c). split; [reflexivity|]. split; [left; reflexivity|right; exists c; reflexivity].
   - exfalso.
     assert (Hnd' : NoDup (arrivals (h ++ [DPoll]))) by (rewrite arrivals_app; cbn [arrivals]; rewrite app_nil_r; exact Hnd).
-    destruct (model_drain_safe_live _ Hnd') as [_ Hlive].
+    destruct (model_drain_safe_live _ Hnd') as (_ & Hlive & _).
     apply (Hlive (dtrace h ++ [DI DPoll]) []).
     + rewrite Htr, Hstep, E. rewrite <- app_assoc. reflexivity.
     + unfold drained, app_after. rewrite fold_left_app. cbn [fold_left app_step op_target].
